@@ -103,8 +103,9 @@ def _op_block(sizes, newsizes, ndim, doms, dks, hows, offsets='all', wopts=(None
                 offs += [list(o) for o in R.all_offsets(shape, newshp)]
             for dom in doms:
                 dnob = _nobs(ndim, dom['nob'])
-                if any(n == 1 and l and r for n, (l, r) in zip(shape, dnob)):
-                    continue    # one node cannot lie on both boundaries
+                if any(n == 1 and (l or r) for n, (l, r) in zip(shape, dnob)):
+                    continue    # 1-point axis with a node on the boundary: the cell size is
+                                # not defined by the grid (odl uses the extent) -- unspecified
                 if dom.get('nonuni') and (shape[-1] != newshp[-1] or shape[-1] < 3):
                     continue    # resizing a non-uniform axis is rejected (kind 'rej'); fewer
                                 # than 3 points are always uniformly spaced
@@ -115,15 +116,17 @@ def _op_block(sizes, newsizes, ndim, doms, dks, hows, offsets='all', wopts=(None
                         if how == 'range' and dk is not None:
                             continue        # the range is built by hand, discr_kwargs unused
                         if dk is not None and any(
-                                m == 1 and l and r
+                                m == 1 and (l or r)
                                 for m, (l, r) in zip(newshp, _nobs(ndim, dk))):
-                            continue
+                            continue        # same for the requested range
                         for off in offs:
                             if how == 'range' and off is None:
                                 continue        # the hand-built range needs a definite offset
                             for w in wopts:
                                 if w == 'array' and how != 'range':
                                     continue    # range weighting undefined (shape changes)
+                                if w is not None and (dk is not None or dom['nob'] != 'F'):
+                                    continue    # one deviation at a time for the weights
                                 cfgs.append({'kind': 'op', 'shape': list(shape),
                                              'newshp': list(newshp), 'dom': dom, 'how': how,
                                              'dk_nob': dk, 'offset': off, 'w': w})
@@ -134,7 +137,8 @@ def _op_block(sizes, newsizes, ndim, doms, dks, hows, offsets='all', wopts=(None
 REJ = ['range_cell_sides_differ', 'range_shifted_by_fraction', 'offset_with_range',
        'neither_range_nor_shape', 'both_range_and_shape', 'resize_nonuniform_axis',
        'bad_pad_mode_op', 'bad_pad_mode_array', 'bad_direction', 'out_wrong_shape',
-       'ndim_mismatch']
+       'ndim_mismatch', 'ndim_mismatch_out', 'domain_not_discretized', 'newshp_not_sequence',
+       'out_not_ndarray', 'nodes_on_bdry_wrong_length', 'pad_const_not_castable']
 
 
 def configs(tier):
@@ -154,7 +158,9 @@ def configs(tier):
         cfgs += [c for c in _arr_block([1, 2, 3], range(1, 6), 2, v2)
                  if c['var'] not in v1]
         cfgs += _arr_block([1, 2, 3], range(1, 6), 3, [BASE])
-        cfgs += [c for c in _arr_block([2, 3], range(1, 5), 3, v1) if c['var'] != BASE]
+        v3d = [v for v in v1 if v != BASE and (v['dtype'] != 'float64' or v['out'] == 'F'
+                                               or v['arr'] in ('F', 'N'))]
+        cfgs += _arr_block([2, 3], range(1, 5), 3, v3d)
         cfgs += _arr_block([1, 2], [1, 2, 3], 4, [BASE])
     # de-duplicate (blocks overlap), keep first occurrence
     seen, uniq = set(), []
@@ -449,12 +455,25 @@ def _extent(ax, n, g0, lr):
     return lo, hi
 
 
-def _weighting_arg(w, shape):
+def _rdt(dtype):
+    return np.empty(0, dtype=dtype).real.dtype
+
+
+def _srepr(space):
+    """repr of a space that cannot fail (repr of array-weighted discretized spaces raises)."""
+    try:
+        return repr(space).replace('\n', ' ')
+    except Exception:
+        return '<%s min_pt=%s max_pt=%s shape=%s, array weighting>' % (
+            type(space).__name__, space.min_pt, space.max_pt, space.shape)
+
+
+def _weighting_arg(w, shape, rdtype='float64'):
     if w is None:
         return {}
     if w == 'array':
         k = np.arange(int(np.prod(shape)))
-        return {'weighting': (2.0 ** ((k % 3) - 1)).reshape(shape)}
+        return {'weighting': (2.0 ** ((k % 3) - 1)).reshape(shape).astype(rdtype)}
     return {'weighting': float(w)}
 
 
@@ -479,7 +498,7 @@ def _build_domain(cfg):
     los, his = zip(*[_extent(ax, shape[ax], G0[ax], nob[ax]) for ax in range(ndim)])
     return odl.uniform_discr(list(los), list(his), shape, dtype=dom['dtype'],
                              nodes_on_bdry=[tuple(map(bool, p)) for p in nob],
-                             **_weighting_arg(w, shape))
+                             **_weighting_arg(w, shape, _rdt(dom['dtype'])))
 
 
 def _grow_left(n, m, p):
@@ -558,8 +577,8 @@ def _run_op(cfg):
     req_nob = _nobs(ndim, dk_nob) if dk_nob is not None else None
     cplx = np.dtype(domspec['dtype']).kind == 'c'
     n_in, n_out = int(np.prod(shape)), int(np.prod(newshp))
-    head0 = ('domain=%r how=%s ran_shp=%s offset=%s discr_kwargs nodes_on_bdry=%s weighting=%s'
-             % (dom, how, list(newshp), cfg['offset'], dk_nob, cfg.get('w')))
+    head0 = ('domain=%s how=%s ran_shp=%s offset=%s discr_kwargs nodes_on_bdry=%s weighting=%s'
+             % (_srepr(dom), how, list(newshp), cfg['offset'], dk_nob, cfg.get('w')))
 
     def make(mode, c):
         kw = {'pad_mode': mode}
@@ -568,9 +587,17 @@ def _run_op(cfg):
         if how == 'ran_shp':
             dk = {}
             if req_nob is not None:
-                dk['nodes_on_bdry'] = [tuple(map(bool, p)) for p in req_nob]
+                # every documented way of writing the option is used somewhere
+                if dk_nob == 'F':
+                    dk['nodes_on_bdry'] = False
+                elif dk_nob == 'T':
+                    dk['nodes_on_bdry'] = True if ndim == 1 else [True] * ndim
+                elif ndim == 1:
+                    dk['nodes_on_bdry'] = tuple(map(bool, req_nob[0]))
+                else:
+                    dk['nodes_on_bdry'] = [tuple(map(bool, p)) for p in req_nob]
             if cfg.get('w') is not None:
-                dk.update(_weighting_arg(cfg['w'], newshp))
+                dk.update(_weighting_arg(cfg['w'], newshp, _rdt(domspec['dtype'])))
             if dk:
                 kw['discr_kwargs'] = dk
             if cfg['offset'] is not None:
@@ -584,7 +611,8 @@ def _run_op(cfg):
             los.append(lo)
             his.append(hi)
         ran = odl.uniform_discr(los, his, newshp, dtype=domspec['dtype'],
-                                **_weighting_arg(cfg.get('w') or domspec.get('w'), newshp))
+                                **_weighting_arg(cfg.get('w') or domspec.get('w'), newshp,
+                                                 _rdt(domspec['dtype'])))
         return odl.ResizingOperator(dom, ran, **kw)
 
     geometry_done = False
@@ -638,8 +666,9 @@ def _run_op(cfg):
                     if not _close(rgrid, ref_grid):
                         report(gsite, 'range_grid_misplaced',
                                head + ' axis %d: domain grid %s, offset %d -> range grid must be '
-                               '%s, is %s (range=%r)' % (ax, _fmt(dgrid), use_off,
-                                                         _fmt(ref_grid), _fmt(rgrid), ran))
+                               '%s, is %s (range=%s)' % (ax, _fmt(dgrid), use_off,
+                                                         _fmt(ref_grid), _fmt(rgrid),
+                                                         _srepr(ran)))
                         continue
                     # boundary placement (documented semantics of nodes_on_bdry)
                     if how == 'range':
@@ -721,6 +750,17 @@ def _run_op(cfg):
                 report('ResizingOperator.derivative', 'raises:' + type(e).__name__,
                        head + ': %r' % (e,))
             # -------------------------------------------------------------- adjoint
+            if not lin:
+                # Operator.adjoint: "Raises OpNotImplementedError"; a non-linear map has none
+                evals += 1
+                try:
+                    op.adjoint
+                    skipped += 1
+                except NotImplementedError:
+                    pass
+                except Exception as e:
+                    report('ResizingOperator.adjoint[non-linear]', 'raises:' + type(e).__name__,
+                           head + ': %r' % (e,))
             if lin:
                 wd, wr = _diag_weights(dom), _diag_weights(ran)
                 weq = bool(np.all(wd == wd[0]) and np.all(wr == wd[0])) if len(wd) else True
@@ -838,6 +878,7 @@ def _run_rej(cfg):
     arr = np.arange(3.0)
     want = (ValueError, TypeError)
     doc = ''
+    accept_ok = False
     try:
         if name == 'range_cell_sides_differ':
             doc = '"This requires that the partitions match, i.e. that the cell sizes are the same"'
@@ -874,6 +915,28 @@ def _run_rej(cfg):
         elif name == 'ndim_mismatch':
             doc = 'newshp has another number of axes than arr'
             NU.resize_array(arr, (5, 5))
+        elif name == 'ndim_mismatch_out':
+            doc = 'out has another number of axes than arr'
+            NU.resize_array(arr, (5, 5), out=np.zeros((5, 5)))
+        elif name == 'domain_not_discretized':
+            doc = '"domain : uniform `DiscretizedSpace`"'
+            odl.ResizingOperator(odl.rn(3), ran_shp=(5,))
+        elif name == 'newshp_not_sequence':
+            doc = '"newshp : sequence of ints"'
+            NU.resize_array(arr, 5)
+        elif name == 'out_not_ndarray':
+            doc = '"out : `numpy.ndarray`, optional"'
+            NU.resize_array(arr, (5,), out=[0.0] * 5)
+        elif name == 'nodes_on_bdry_wrong_length':
+            doc = 'uniform_discr: "The length of the sequence must be ``len(shape)``"'
+            odl.ResizingOperator(odl.uniform_discr([0, 0], [1, 1], (2, 2)), ran_shp=(3, 3),
+                                 discr_kwargs={'nodes_on_bdry': [True, False, True]})
+        elif name == 'pad_const_not_castable':
+            # a non-integer constant for integer data: not documented; a clean refusal or a
+            # result are both accepted, anything else is not
+            doc = 'pad_const=1.5 for an int64 array'
+            accept_ok = True
+            NU.resize_array(np.arange(3), (5,), pad_const=1.5)
         else:
             raise KeyError(name)
     except want:
@@ -882,6 +945,8 @@ def _run_rej(cfg):
         return {'evals': 1, 'sig': 'rej:%s:unclean' % name,
                 'viol': [{'site': 'reject[%s]' % name, 'symptom': 'raises:' + type(e).__name__,
                           'detail': '%s: expected ValueError/TypeError, got %r' % (doc, e)}]}
+    if accept_ok:
+        return {'evals': 1, 'viol': [], 'skipped': 1, 'sig': 'rej:%s:accepted' % name}
     return {'evals': 1, 'sig': 'rej:%s:accepted' % name,
             'viol': [{'site': 'reject[%s]' % name, 'symptom': 'not_rejected',
                       'detail': doc + ': the call succeeded'}]}
